@@ -147,6 +147,21 @@ def run_native(case):
     evals = 1
     if not np.array_equal(Xin, X):
         fails.append({"key": "input-mutated;" + cfg, "msg": "MappedXC.__call__ modified its feature array"})
+    # the same feature values in other memory layouts (samples-major storage viewed feature-major; every second column of a
+    # wider array): accepted input must give the same result, whatever the C layer underneath expects
+    views = {"samples-major": np.ascontiguousarray(X.transpose(0, 2, 1)).transpose(0, 2, 1),
+             "strided-columns": np.repeat(X, 2, axis=2)[:, :, ::2]}
+    for vname, Xv in views.items():
+        try:
+            rv, dv = ml(Xv, rhocut=case["rhocut"])
+        except (ValueError, AssertionError):
+            continue  # a rejected layout is not a wrong answer
+        evals += 1
+        sc_ = 1 + max(np.abs(res).max(), np.abs(dres).max())
+        if not (np.abs(np.asarray(rv) - res).max() <= 1e-13 * sc_ and np.abs(np.asarray(dv) - dres).max() <= 1e-13 * sc_):
+            fails.append({"key": "layout-dependent;%s;%s" % (vname, cfg),
+                          "msg": "the same features passed as a %s view give another result: energy differs by %.3e, derivative by %.3e" % (
+                              vname, np.abs(np.asarray(rv) - res).max(), np.abs(np.asarray(dv) - dres).max())})
     if res.shape != (X.shape[2],) or dres.shape != X.shape:
         fails.append({"key": "shape;" + cfg, "msg": "res/dres shapes %s %s" % (res.shape, dres.shape)})
         return {"fail": fails, "evals": evals, "outcome": "shape"}
@@ -216,6 +231,20 @@ def run_libxc(case):
     und = 0
     if mutated:
         fails.append({"key": "input-mutated;x;" + cfg, "msg": "MappedXC2.__call__ modified its feature array or density tuple"})
+    # other memory layouts of the same values (features samples-major; density tuple entries as strided views)
+    try:
+        Xv = np.ascontiguousarray(X.transpose(0, 2, 1)).transpose(0, 2, 1)
+        rtv = tuple(np.repeat(np.asarray(r), 2, axis=-1)[..., ::2] for r in rt)
+        rv, dv, vtv = ml(Xv, rtv, rhocut=case["rhocut"])
+        evals += 1
+        sc_ = 1 + max(np.abs(res).max(), np.abs(dres).max())
+        dvt = max(np.abs(np.asarray(a) - np.asarray(b)).max() for a, b in zip(vtv, vt))
+        if not (np.abs(np.asarray(rv) - res).max() <= 1e-13 * sc_ and np.abs(np.asarray(dv) - dres).max() <= 1e-13 * sc_ and dvt <= 1e-13 * (1 + max(np.abs(np.asarray(a)).max() for a in vt))):
+            fails.append({"key": "layout-dependent;x;" + cfg,
+                          "msg": "the same features / densities passed as strided views give another result: energy differs by %.3e, feature derivative by %.3e, density potential by %.3e" % (
+                              np.abs(np.asarray(rv) - res).max(), np.abs(np.asarray(dv) - dres).max(), dvt)})
+    except (ValueError, AssertionError):
+        pass  # a rejected layout is not a wrong answer
     worst = 0.0
     ck = ";".join("%s=%s" % (k, case[k]) for k in ("ev", "mode", "nspin", "mul", "add", "rhocut"))
 
